@@ -1546,7 +1546,13 @@ func putdomtext(w io.Writer, a []byte) {
 			toWrite = append(toWrite, s[:n])
 		}
 	}
-	_, err := w.Write(bytes.Join(toWrite, []byte(".")))
+	text := bytes.Join(toWrite, []byte("."))
+	// a leading "*." reads back as the wildcard marker: when it only shows up
+	// because the empty labels in front of it went away, keep one of them
+	if bytes.HasPrefix(text, []byte("*.")) && !bytes.HasPrefix(quoted, []byte("*.")) {
+		text = append([]byte("."), text...)
+	}
+	_, err := w.Write(text)
 	if err != nil {
 		glog.Errorf("%v", err)
 	}
